@@ -111,6 +111,7 @@ type FuncContract struct {
 	Cost     Expr
 	Line     int
 	Lemmas   []*Clause
+	Unfold   []Expr // function-level unfold hints (applied at entry and at every return)
 }
 
 type LoopContract struct {
@@ -607,7 +608,7 @@ func parseModItem(s string) (ModItem, error) {
 	return mi, nil
 }
 
-var clauseKeywords = map[string]bool{"defines": true, "justify": true, "requires": true, "ensures": true, "modifies": true, "loop": true, "rank": true, "inline": true, "cost": true, "lemma": true, "trusted": true}
+var clauseKeywords = map[string]bool{"unfold": true, "defines": true, "justify": true, "requires": true, "ensures": true, "modifies": true, "loop": true, "rank": true, "inline": true, "cost": true, "lemma": true, "trusted": true}
 
 func loadContracts(path string) (*Contracts, error) {
 	data, err := os.ReadFile(path)
@@ -730,6 +731,12 @@ func loadContracts(path string) (*Contracts, error) {
 				cur.Inline = true
 			case "trusted":
 				cur.Trusted = true
+			case "unfold":
+				e, err := parseExprString(rest)
+				if err != nil {
+					return nil, fail(err)
+				}
+				cur.Unfold = append(cur.Unfold, e)
 			case "justify":
 				cur.Justify = strings.TrimSpace(rest)
 			case "defines":
